@@ -164,11 +164,7 @@ void OPNMIDIplay::applySetup()
     m_chipChannels.resize(synth.m_numChannels, OpnChannel());
     resetMIDIDefaults();
 #if defined(OPNMIDI_MIDI2VGM) && !defined(OPNMIDI_DISABLE_MIDI_SEQUENCER)
-    m_sequencerInterface->onloopStart = synth.m_loopStartHook;
-    m_sequencerInterface->onloopStart_userData = synth.m_loopStartHookData;
-    m_sequencerInterface->onloopEnd = synth.m_loopEndHook;
-    m_sequencerInterface->onloopEnd_userData = synth.m_loopEndHookData;
-    m_sequencer->setLoopHooksOnly(m_sequencerInterface->onloopStart != NULL);
+    setupLoopHooks();
 #endif
     // Reset the arpeggio counter
     m_arpeggioCounter = 0;
@@ -185,13 +181,35 @@ void OPNMIDIplay::partialReset()
     m_chipChannels.resize(synth.m_numChannels);
     resetMIDIDefaults();
 #if defined(OPNMIDI_MIDI2VGM) && !defined(OPNMIDI_DISABLE_MIDI_SEQUENCER)
-    m_sequencerInterface->onloopStart = synth.m_loopStartHook;
-    m_sequencerInterface->onloopStart_userData = synth.m_loopStartHookData;
-    m_sequencerInterface->onloopEnd = synth.m_loopEndHook;
-    m_sequencerInterface->onloopEnd_userData = synth.m_loopEndHookData;
-    m_sequencer->setLoopHooksOnly(m_sequencerInterface->onloopStart != NULL);
+    setupLoopHooks();
 #endif
 }
+
+#if defined(OPNMIDI_MIDI2VGM) && !defined(OPNMIDI_DISABLE_MIDI_SEQUENCER)
+void OPNMIDIplay::setupLoopHooks()
+{
+    Synth &synth = *m_synth;
+    if(synth.m_loopStartHook)
+    {
+        // The VGM dumper is running: it needs the loop points itself
+        m_sequencerInterface->onloopStart = synth.m_loopStartHook;
+        m_sequencerInterface->onloopStart_userData = synth.m_loopStartHookData;
+        m_sequencerInterface->onloopEnd = synth.m_loopEndHook;
+        m_sequencerInterface->onloopEnd_userData = synth.m_loopEndHookData;
+        m_sequencer->setLoopHooksOnly(true);
+    }
+    else
+    {
+        // Any other emulator: the hooks installed by the user stay in force
+        if(m_sequencerInterface->onloopStart != hooks.onLoopStart)
+            m_sequencer->setLoopHooksOnly(false); // the dumper has just been left
+        m_sequencerInterface->onloopStart = hooks.onLoopStart;
+        m_sequencerInterface->onloopStart_userData = hooks.onLoopStart_userData;
+        m_sequencerInterface->onloopEnd = hooks.onLoopEnd;
+        m_sequencerInterface->onloopEnd_userData = hooks.onLoopEnd_userData;
+    }
+}
+#endif
 
 void OPNMIDIplay::resetMIDI()
 {
